@@ -33,7 +33,7 @@ EXPLANATION = ('C07: socket sets {unix, inet, both, so_reuseport}, watcher varia
 
 VARIANTS = ('cmd_lower', 'cmd_upper', 'args_ref', 'both_syntaxes', 'two_sockets', 'no_use_sockets', 'stdin_only', 'reuseport')
 EVENTS = (scen.EV_XKILL, scen.EV_EXIT, scen.EV_RESTART, scen.EV_RELOAD, scen.EV_RELOAD_SEQ, scen.EV_RELOAD_TERM, scen.EV_INCR, scen.EV_DECR,
-          scen.EV_CHECK, scen.EV_STOP, scen.EV_START)
+          scen.EV_CHECK, scen.EV_STOP, scen.EV_START, 'SETCMD')
 
 
 class Counter(object):
@@ -123,10 +123,21 @@ def c07_sockets(vi: int, e1: int, p1: int, e2: int, p2: int) -> bool:
             arb = w.arbiter
             fds0 = dict((n, s.fileno()) for n, s in arb.sockets.items())
             sc = Sched(w)
-            sc.apply(EVENTS[e1], p1)
+            switched = {'t': None}
+
+            def apply(ev, p):
+                if ev != 'SETCMD':
+                    return sc.apply(ev, p)
+                if variant not in ('cmd_lower', 'cmd_upper', 'two_sockets', 'both_syntaxes') or switched['t'] is not None:
+                    return sc.apply(scen.EV_CHECK, 0)
+                # the command line is changed at run time to refer to ANOTHER managed socket (set cmd reloads the watcher)
+                r_ = w.call('set', name='a', options={'cmd': 'prog --fd $(circus.sockets.api)'}, waiting=True, max_time=20.0)
+                if r_.status == 'ok':
+                    switched['t'] = r_.t_sent
+            apply(EVENTS[e1], p1)
             sc.settle(checks=1)
             if S.get('K', 2) >= 2:
-                sc.apply(EVENTS[e2], p2)
+                apply(EVENTS[e2], p2)
                 sc.settle(checks=1)
             if w.clock.tripped:
                 return rt.skip()
@@ -160,7 +171,8 @@ def c07_sockets(vi: int, e1: int, p1: int, e2: int, p2: int) -> bool:
                 kp = k.procs[rec['pid']]
                 if rec['tag'] == 'a' and kw.get('use_sockets'):
                     argv = list(rec['argv'])
-                    for (n, pos) in refs:
+                    refs_now = [('api', 2)] if switched['t'] is not None and rec['t'] >= switched['t'] else refs
+                    for (n, pos) in refs_now:
                         s = arb.sockets[n]
                         if s.so_reuseport:
                             # bound per worker by design: the fd passed must be a valid number, different from the template's
@@ -275,6 +287,6 @@ def plan(tier):
     return [
         Cond('c07_sockets', shards=[{'vi': i, 'K': 1 if q else 2} for i in range(len(VARIANTS))] + ([{'vi': 0, 'K': 2}, {'vi': 4, 'K': 2}] if q else []),
              budget=240 if q else 1500, twins=2,
-             bounds={'variant': 'S%r' % (VARIANTS,), 'e1,e2': 'S: %d events (deaths, restart, 3 reload modes, incr, decr, check, stop, start)' % len(EVENTS),
+             bounds={'variant': 'S%r' % (VARIANTS,), 'e1,e2': 'S: %d events (deaths, restart, 3 reload modes, incr, decr, check, stop, start, set cmd -> another socket)' % len(EVENTS),
                      'p': 'S{0,1}', 'K': 'S{1,2}'}),
     ]
